@@ -26,6 +26,40 @@ CHECKS = {
         note="Trusted: TLC, harness, hooks, ASan/UBSan. 2 contexts, 2-3 pipes; macro-step grain; raw mode (xreq/xrep) is covered by C13.",
         technique="TLA+ model checking (TLC) + simulation replay through a harness transport with virtual time",
         ref="DESIGN.md section 4, C04"),
+    "C10": dict(
+        text="TLA+ spec life/Life.tla: a socket with a listener, a dialer, a context, pipes and pending receives in macro steps under the "
+             "virtual clock; invariants ClosedIsFinal (after socket close nothing is pending, every announced pipe is retired, no "
+             "accept/connect/redial is left) and CtxClosedIsFinal; TLC -simulate behaviours replayed on a REP socket over the harness "
+             "transport: socket/context/listener/dialer/pipe close in every reachable state, pending operations must complete with "
+             "NNG_ECLOSED in the same step, and after socket close every derived handle (socket, context, listener, dialer, pipes) is "
+             "probed and must be refused.  Close calls run on a helper thread with a watchdog: a close that does not return aborts the driver.",
+        note="Trusted: TLC, harness, hooks, ASan/UBSan. One protocol (REP) and the harness transport stand for all protocols x transports "
+             "(close, endpoints and pipe events live in src/core); close racing with operations issued by a second application thread "
+             "is not enumerated; devices are not part of this spec.",
+        technique="TLA+ model checking (TLC) + simulation replay through a harness transport",
+        ref="DESIGN.md section 4, C10"),
+    "C14": dict(
+        text="TLA+ spec life/Life.tla: invariants EventOrder (per pipe ADD_PRE, optional ADD_POST, REM_POST, each at most once; REM_POST for "
+             "every announced pipe; a pipe closed inside ADD_PRE is never announced), DialerSound (at most one pipe per dialer; a dialer "
+             "without a pipe is dialling or waiting for its reconnect time), ListenerSound (a started listener always has an accept "
+             "outstanding); behaviours replayed on the real socket: the driver records every notification with its per-pipe sequence "
+             "number, closes pipes inside ADD_PRE, fails/completes dials, loses peers, and advances the virtual clock by the reconnect "
+             "time after which the dialer must have dialled again.",
+        note="Trusted: as C10. Reconnect min = max = 10 ms (the randomised delay is below it; back-off growth is not modelled); one dialer and "
+             "one listener per socket; harness transport only.",
+        technique="TLA+ model checking (TLC) + simulation replay through a harness transport with virtual time",
+        ref="DESIGN.md section 4, C14"),
+    "C20": dict(
+        category="model_checking",
+        text="The data-structure specifications (Lmq, IdMap, Msg) give every allocating operation a second outcome: NNG_ENOMEM with the "
+             "abstract state unchanged.  Walks of the TLC graphs are replayed normally while counting the allocations of every step; then "
+             "every allocating step is replayed with its k-th allocation failing (fault-injecting allocator), followed by the same call "
+             "again and the rest of the walk.  Accepted: ENOMEM with all observables unchanged and the retry and the remainder conforming "
+             "to the specification, or the specified result (the block was not needed); ASan/UBSan and the allocator balance at the end.",
+        note="Trusted: TLC, harness/drv_data.c + acct.c, ASan/UBSan. Only objects reachable without the I/O framework are injected (lmq, id "
+             "map, nng_msg); sockets, transports, URL/HTTP and background threads are not.",
+        technique="TLA+ specification with failure outcomes + fault-injection replay of the TLC graph on the implementation",
+        ref="DESIGN.md section 4, C20"),
     "C12": dict(
         category="model_checking",
         text="proto/Req.tla: invariants NoOrphan (an unanswered request is queued for a pipe, or has a resend scheduled on a running "
